@@ -25,7 +25,8 @@ PROPS = {
     },
     "C14": {
         "module": "ZenonVerif.Props.C14",
-        "streams": [S("prio", 20000, 1000000), S("filter", 4000, 200000), S("pool", 400, 30000)],
+        "streams": [S("prio", 20000, 1000000), S("filter", 4000, 200000), S("pool", 400, 30000),
+                    S("pool-batch", 60, 3000, driver=False)],
         "rule": "prio stream: all ordered pairs of boundary (TotalPlasma, BasePlasma) values incl. 0 and the caps, then random "
                 "pairs (equal ratios, same plasma, same hash, hashes one bit apart, zero plasma, full uint64 range so the "
                 "products wrap, in-range), each evaluated in both directions on chain.higherPriority and on the model, plus "
@@ -35,7 +36,9 @@ PROPS = {
                 "chain.NewAccountPool for one address (add on top, competitor for a pooled height with equal/better/random "
                 "plasma, duplicates, competitor of a confirmed block, non-linking blocks, forced adds, momentum confirming "
                 "a prefix of the pool / a competitor / nothing, momentum rollback), after every operation the frontier and "
-                "the uncommitted blocks are compared with the Lean state machine; distinct = distinct (op,result) lines",
+                "the uncommitted blocks are compared with the Lean state machine; pool-batch stream (monitors only): a contract "
+                "receive with 0-3 descendant blocks pooled across a momentum, and 2-6 addresses rebuilt by one momentum that "
+                "forks some of them; distinct = distinct (op,result) lines",
         "partial": "data-race freedom / readers never observing a half-applied block are runtime properties of Go's memory "
                    "model, not theorems; the pool state machine (model and stream) covers one address and one-block transactions: "
                    "contract receives with descendant blocks and the cross-address early return of rebuild (candidate F12) are "
